@@ -24,7 +24,7 @@ use crate::{
         ed25519::Keypair,
         noise::{self, NoiseSocket},
     },
-    error::{Error, NegotiationError, SubstreamError},
+    error::{NegotiationError, SubstreamError},
     multistream_select::{dialer_select_proto, listener_select_proto, Negotiated, Version},
     protocol::{Direction, Permit, ProtocolCommand, ProtocolSet, SubstreamKeepAlive},
     substream,
@@ -530,7 +530,21 @@ impl TcpConnection {
                 // This permit will be passed on until the substream is reported to the
                 // [`TransportService`](crate::protocol::TransportService), where the connection
                 // will be upgraded and the permit won't be needed anymore.
-                let permit = self.protocol_set.try_get_permit().ok_or(Error::ConnectionClosed)?;
+                let Some(permit) = self.protocol_set.try_get_permit() else {
+                    // Every protocol has released the connection: it is closing. Leave the
+                    // event loop the same way the `None` command does, so that the protocols
+                    // and the manager are told.
+                    tracing::debug!(
+                        target: LOG_TARGET,
+                        peer = ?self.peer,
+                        "inbound substream on a connection no protocol keeps open, closing connection",
+                    );
+
+                    self.protocol_set
+                        .report_connection_closed(self.peer, self.endpoint.connection_id())
+                        .await?;
+                    return Ok(true);
+                };
                 let open_timeout = self.substream_open_timeout;
 
                 self.pending_substreams.push(Box::pin(async move {
@@ -615,18 +629,21 @@ impl TcpConnection {
 
                 match (protocol, substream_id) {
                     (Some(protocol), Some(substream_id)) => {
-                        self.protocol_set
+                        // The protocol may have exited. That concerns only this substream: the
+                        // connection stays open for the other protocols.
+                        if let Err(error) = self
+                            .protocol_set
                             .report_substream_open_failure(protocol.clone(), substream_id, error)
                             .await
-                            .inspect_err(|error| {
-                                tracing::error!(
-                                    target: LOG_TARGET,
-                                    ?protocol,
-                                    endpoint = ?self.endpoint,
-                                    ?error,
-                                    "failed to register substream open failure to protocol"
-                                );
-                            })?;
+                        {
+                            tracing::debug!(
+                                target: LOG_TARGET,
+                                ?protocol,
+                                endpoint = ?self.endpoint,
+                                ?error,
+                                "failed to register substream open failure to protocol"
+                            );
+                        }
                     }
                     _ => {}
                 }
@@ -647,7 +664,10 @@ impl TcpConnection {
                     self.protocol_set.protocol_codec(&protocol),
                 );
 
-                self.protocol_set
+                // The protocol may have exited, in which case the substream is dropped. That
+                // concerns only this substream: the connection stays open for the other protocols.
+                if let Err(error) = self
+                    .protocol_set
                     .report_substream_open(
                         self.peer,
                         protocol.clone(),
@@ -656,16 +676,16 @@ impl TcpConnection {
                         opening_permit,
                     )
                     .await
-                    .inspect_err(|error| {
-                        tracing::error!(
-                            target: LOG_TARGET,
-                            ?protocol,
-                            peer = ?self.peer,
-                            endpoint = ?self.endpoint,
-                            ?error,
-                            "failed to register opened substream to protocol",
-                        );
-                    })?;
+                {
+                    tracing::debug!(
+                        target: LOG_TARGET,
+                        ?protocol,
+                        peer = ?self.peer,
+                        endpoint = ?self.endpoint,
+                        ?error,
+                        "failed to register opened substream to protocol",
+                    );
+                }
             }
         }
 
